@@ -1,4 +1,5 @@
-CONSTANTS Comp = "flagged" DBSeq <- DB2 KeySeq <- Key1 Vals <- Val1 MaxFlush = 2 MaxDrops = 2 MaxOps = 5 Canonical = FALSE
+CONSTANTS Comp = "flagged" DBSeq <- DB2 KeySeq <- Key3 PutKeys <- PutK1 Vals <- Val1 Big = 3 MaxFlush = 2 MaxDrops = 2 MaxBulk = 0
 SPECIFICATION Spec
-INVARIANT EmitScen
+VIEW View
+ACTION_CONSTRAINT EmitEdge
 CHECK_DEADLOCK FALSE
